@@ -46,7 +46,8 @@ Record payload := {
   ncell : nat;                   (* grid objects: number of cells (centroids) *)
   vals : option (list (option Z));  (* data values; None inside = no-data *)
   meta : option loc;             (* the metadata dict object, if any *)
-  nocopy : bool                  (* CustomGroup: create_object_or_group finds no class, the copy is None *)
+  nocopy : bool;                 (* CustomGroup: create_object_or_group finds no class, the copy is None *)
+  ndv : option Z                 (* data: what a blanked value reads as (None = NaN; integer classes: their no-data value) *)
 }.
 
 Record pgroup := { pg_uid : uid; pg_tok : Z; pg_props : list uid }.
@@ -87,9 +88,9 @@ Fixpoint compress {A} (m : list bool) (l : list A) : list A :=
   | _, _ => []
   end.
 
-Fixpoint fillmask {A} (m : list bool) (l : list (option A)) : list (option A) :=
+Fixpoint fillmask {A} (nd : option A) (m : list bool) (l : list (option A)) : list (option A) :=
   match m, l with
-  | b :: m', x :: l' => (if b then x else None) :: fillmask m' l'
+  | b :: m', x :: l' => (if b then x else nd) :: fillmask nd m' l'
   | _, _ => []
   end.
 
@@ -106,8 +107,8 @@ Definition remap_cells (m : list bool) (cs : list (list nat)) : list (list nat) 
   map (map (fun v => nth v (new_ids m) 1)) (filter (cell_kept m) cs).
 
 (* Data.copy: values[mask] when the new parent holds fewer elements than the data, else blanked in place *)
-Definition mask_values (nparent : nat) (m : list bool) (v : list (option Z)) : list (option Z) :=
-  if Nat.ltb nparent (length v) then compress m v else fillmask m v.
+Definition mask_values (nd : option Z) (nparent : nat) (m : list bool) (v : list (option Z)) : list (option Z) :=
+  if Nat.ltb nparent (length v) then compress m v else fillmask nd m v.
 
 (* what a child copy receives *)
 Inductive cmask := CNone | CMask (m : list bool) | CFill (m : list bool).
@@ -120,15 +121,15 @@ Definition plain_ctx : ctx := {| cmk := CNone; pnv := None; pnc := None; with_ch
 
 Definition set_payload (p : payload) (vs : list Z) (cs : list (list nat)) (vl : option (list (option Z))) : payload :=
   {| cls := cls p; knd := knd p; geok := geok p; asc := asc p; attrs := attrs p; verts := vs; cells := cs;
-     ncell := ncell p; vals := vl; meta := meta p; nocopy := nocopy p |}.
+     ncell := ncell p; vals := vl; meta := meta p; nocopy := nocopy p; ndv := ndv p |}.
 
 Definition set_meta (p : payload) (m : option loc) : payload :=
   {| cls := cls p; knd := knd p; geok := geok p; asc := asc p; attrs := attrs p; verts := verts p; cells := cells p;
-     ncell := ncell p; vals := vals p; meta := m; nocopy := nocopy p |}.
+     ncell := ncell p; vals := vals p; meta := m; nocopy := nocopy p; ndv := ndv p |}.
 
 Definition set_attrs (p : payload) (a : list (Z * Z)) : payload :=
   {| cls := cls p; knd := knd p; geok := geok p; asc := asc p; attrs := a; verts := verts p; cells := cells p;
-     ncell := ncell p; vals := vals p; meta := meta p; nocopy := nocopy p |}.
+     ncell := ncell p; vals := vals p; meta := meta p; nocopy := nocopy p; ndv := ndv p |}.
 
 Fixpoint override1 (k v : Z) (a : list (Z * Z)) : list (Z * Z) :=
   match a with [] => [] | (k', v') :: r => if Z.eqb k k' then (k', v) :: r else (k', v') :: override1 k v r end.
@@ -148,10 +149,10 @@ Definition masked_payload (cx : ctx) (p : payload) : res payload :=
           if negb (Nat.eqb (length m) (length v)) then Err EMaskShape else
           match (match asc p with ACell => pnc cx | _ => pnv cx end) with
           | None => Err ETypeError                 (* None < int *)
-          | Some np => Ok (set_payload p (verts p) (cells p) (Some (mask_values np m v)))
+          | Some np => Ok (set_payload p (verts p) (cells p) (Some (mask_values (ndv p) np m v)))
           end
       | CFill m, Some v =>
-          if Nat.eqb (length m) (length v) then Ok (set_payload p (verts p) (cells p) (Some (fillmask m v))) else Ok p
+          if Nat.eqb (length m) (length v) then Ok (set_payload p (verts p) (cells p) (Some (fillmask (ndv p) m v))) else Ok p
       end
   | KObject =>
       match cmk cx with
@@ -206,24 +207,24 @@ Definition nverts_of (p : payload) : option nat :=
   end.
 Definition ncells_of (p : payload) : option nat :=
   match knd p, geok p with
-  | KObject, (GCells | GCurve) => match cells p with [] => None | c => Some (length c) end
+  | KObject, (GCells | GCurve) => match verts p with [] => None | _ => Some (length (cells p)) end
   | KObject, GGrid => Some (ncell p)
   | _, _ => None
   end.
 
 (* ---------------------------------------------------------------- identifiers *)
-Record cst := { used : list uid; usedpg : list uid; nxt : N; rho : list (uid * uid) }.
+Record cst := { used : list uid; usedpg : list uid; nxt : N }.
 
 (* "Assign the same uid if possible": kept iff no entity of the target workspace has it *)
 Definition alloc (u : uid) (st : cst) : uid * cst :=
   if memN u (used st)
-  then (nxt st, {| used := nxt st :: used st; usedpg := usedpg st; nxt := N.succ (nxt st); rho := (u, nxt st) :: rho st |})
-  else (u, {| used := u :: used st; usedpg := usedpg st; nxt := nxt st; rho := (u, u) :: rho st |}).
+  then (nxt st, {| used := nxt st :: used st; usedpg := usedpg st; nxt := N.succ (nxt st) |})
+  else (u, {| used := u :: used st; usedpg := usedpg st; nxt := nxt st |}).
 
 Definition alloc_pg (u : uid) (st : cst) : uid * cst :=
   if memN u (usedpg st)
-  then (nxt st, {| used := used st; usedpg := nxt st :: usedpg st; nxt := N.succ (nxt st); rho := rho st |})
-  else (u, {| used := used st; usedpg := u :: usedpg st; nxt := nxt st; rho := rho st |}).
+  then (nxt st, {| used := used st; usedpg := nxt st :: usedpg st; nxt := N.succ (nxt st) |})
+  else (u, {| used := used st; usedpg := u :: usedpg st; nxt := nxt st |}).
 
 Fixpoint map_props (cmap : list (uid * uid)) (l : list uid) : res (list uid) :=
   match l with
@@ -249,6 +250,27 @@ Fixpoint copy_pgs (cmap : list (uid * uid)) (l : list pgroup) (st : cst) : res (
       end
   end.
 
+(* GridObject.copy copies Data children only *)
+Definition copied_child (p : payload) (c : tree) : bool :=
+  if nocopy (pl (root_node c)) then false else       (* child.copy(...) returned None: silently skipped *)
+  match knd p, geok p, knd (pl (root_node c)) with
+  | KObject, GGrid, KData => true
+  | KObject, GGrid, _ => false
+  | _, _, _ => true
+  end.
+
+(* the uids of the entities of a source subtree that are copied (pre-order) *)
+Fixpoint copied_uids (with_ch : bool) (t : tree) : list uid :=
+  match t with
+  | T n ch => nuid n :: (if with_ch then
+                           (fix go (l : list tree) : list uid :=
+                              match l with
+                              | [] => []
+                              | c :: r => if copied_child (pl n) c then copied_uids true c ++ go r else go r
+                              end) ch
+                         else [])
+  end.
+
 (* state-threading map over the children *)
 Section MapM.
   Variable keep : tree -> bool.
@@ -272,15 +294,6 @@ Definition child_ctx (cx : ctx) (p p' : payload) (c : tree) : ctx :=
   {| cmk := child_cmask cx p (pl (root_node c)); pnv := nverts_of p'; pnc := ncells_of p';
      with_children := true; omit_meta := false; over := [] |}.
 
-(* GridObject.copy copies Data children only *)
-Definition copied_child (p : payload) (c : tree) : bool :=
-  if nocopy (pl (root_node c)) then false else       (* child.copy(...) returned None: silently skipped *)
-  match knd p, geok p, knd (pl (root_node c)) with
-  | KObject, GGrid, KData => true
-  | KObject, GGrid, _ => false
-  | _, _, _ => true
-  end.
-
 Fixpoint copy_tree (t : tree) (cx : ctx) (st : cst) {struct t} : res (tree * cst) :=
   match t with
   | T n ch =>
@@ -288,13 +301,13 @@ Fixpoint copy_tree (t : tree) (cx : ctx) (st : cst) {struct t} : res (tree * cst
       | Err e => Err e
       | Ok p1 =>
           let p' := set_attrs (set_meta p1 (if omit_meta cx then None else meta p1)) (overrides (over cx) (attrs p1)) in
-          let '(u, st1) := alloc (nuid n) st in
+          let u := fst (alloc (nuid n) st) in
+          let st1 := snd (alloc (nuid n) st) in
           if negb (with_children cx) then Ok (T {| nuid := u; pl := p'; npgs := [] |} [], st1) else
-          let ch1 := filter (copied_child (pl n)) ch in
           match mapM_st (copied_child (pl n)) (fun c s => copy_tree c (child_ctx cx (pl n) p' c) s) ch st1 with
           | Err e => Err e
           | Ok (ch', st2) =>
-              let cmap := combine (map root_uid ch1) (map root_uid ch') in
+              let cmap := combine (map root_uid (filter (copied_child (pl n)) ch)) (map root_uid ch') in
               match copy_pgs cmap (npgs n) st2 with
               | Err e => Err e
               | Ok (pgs', st3) => Ok (T {| nuid := u; pl := p'; npgs := pgs' |} ch', st3)
@@ -374,14 +387,14 @@ Definition copy (w : world) (sws : bool) (u : uid) (tws : bool) (p : uid) (o : o
       | KData, (KGroup | KData) => Err EBadParent
       | (KGroup | KObject), KData => Err EBadParent
       | _, _ =>
-        let st0 := {| used := uids (ws w tws); usedpg := pguids (ws w tws); nxt := wnext w; rho := [] |} in
+        let st0 := {| used := uids (ws w tws); usedpg := pguids (ws w tws); nxt := wnext w |} in
         match copy_tree t (top_ctx o (pl (root_node tp))) st0 with
         | Err e => Err e
         | Ok (t', st') =>
             let w1 := set_ws w tws (insert_child p t' (ws w tws)) (nxt st') in
             let w2 := if o_clear o && (o_children o || negb (match knd (pl (root_node t)) with KGroup => true | _ => false end))
                       then set_ws w1 sws (replace_tree u (clear_src t) (ws w1 sws)) (wnext w1) else w1 in
-            Ok (w2, root_uid t', rho st')
+            Ok (w2, root_uid t', combine (copied_uids (o_children o) t) (uids t'))
         end
       end
   | _, _ => Err ENoEntity
